@@ -74,7 +74,7 @@ def _run_job(args):
     r = units.run_unit(eng, qn, timeout_ms=timeout_ms, instance=inst, cross_check=cross)
     obls = []
     for o, res in r.obls:
-        relevant = prop is None or prop in (o.props or []) or o.kind in ('pre', 'inv.init', 'inv.keep', 'dec', 'cover', 'type', 'unexpected-exception')
+        relevant = prop is None or prop in (o.props or []) or o.kind in ('pre', 'inv.init', 'inv.keep', 'dec', 'cover', 'type', 'unexpected-exception', 'applicability')
         if not relevant:
             continue
         d = dict(name=o.name, kind=o.kind, path=o.path, props=o.props, note=o.note, expect_sat=o.expect_sat,
